@@ -278,9 +278,12 @@ Proof.
   destruct r4; [discriminate|discriminate|exact (fpd_no_panic _ _ _ E4)].
 Qed.
 
+(* what totality needs of the configured dialect: decoding never panics and re-encoding a
+   decoded message never panics (both proved for well-formed codecs: CodecProofs, CodecIdem) *)
 Definition codecs_total (cfg : rcfg) : Prop :=
   forall d id c, r_dialect cfg = Some d -> dlookup d id = Some c ->
-  forall v2 p, msg_read c v2 p <> Panic.
+  forall v2 p, msg_read c v2 p <> Panic /\
+               forall v, msg_read c v2 p = Ok v -> exists p', msg_write c v2 v = Ok p'.
 
 Lemma check_key_no_panic k st f : fst (check_key k st f) <> Some pe_panic.
 Proof.
@@ -308,12 +311,14 @@ Proof.
       + inversion HP; subst. intros X; inversion X; subst. apply NK. reflexivity.
       + destruct (r_dialect cfg) as [d|] eqn:D; inversion HP; subst; [|discriminate].
         unfold check_dialect. destruct (raw_of f) as [id p]. destruct (dlookup d id) as [c|] eqn:L; [|discriminate].
-        destruct (negb _); [discriminate|]. pose proof (CT d id c D L (f_v2 f) p) as NP.
-        destruct (msg_read c (f_v2 f) p); [|discriminate|contradiction]. destruct (f_v2 f && has_empty_bytes p); discriminate.
+        destruct (negb _); [discriminate|]. pose proof (CT d id c D L (f_v2 f) p) as [NP WP].
+        destruct (msg_read c (f_v2 f) p) as [v| |]; [|discriminate|contradiction].
+        destruct (WP v eq_refl) as [p' Ep]. rewrite Ep. destruct (bytes_eqb p' p); discriminate.
     - destruct (r_dialect cfg) as [d|] eqn:D; inversion HP; subst; [|discriminate].
       unfold check_dialect. destruct (raw_of f) as [id p]. destruct (dlookup d id) as [c|] eqn:L; [|discriminate].
-      destruct (negb _); [discriminate|]. pose proof (CT d id c D L (f_v2 f) p) as NP.
-      destruct (msg_read c (f_v2 f) p); [|discriminate|contradiction]. destruct (f_v2 f && has_empty_bytes p); discriminate. }
+      destruct (negb _); [discriminate|]. pose proof (CT d id c D L (f_v2 f) p) as [NP WP].
+      destruct (msg_read c (f_v2 f) p) as [v| |]; [|discriminate|contradiction].
+      destruct (WP v eq_refl) as [p' Ep]. rewrite Ep. destruct (bytes_eqb p' p); discriminate. }
   destruct (magic =? 254)%N.
   - destruct (g_unmarshal_v1 fstream f_peek_discard f_read_full l1) as [ru l2] eqn:U.
     destruct ru as [f|e|]; [exact (Post f l2 H)|inversion H; discriminate|exfalso; exact (um1_no_panic _ _ U)].
